@@ -33,7 +33,7 @@ def check(ctx):
     q = FP + "compressibility_combined_func"
     f = P.func(q)
     ctx.assume("oracle: three-phase mass-conservation equations of docs/background.md (storage = phi * sum_c rho_c (sum over phases of c-content * S/B)); the two-phase 'c' formula there prints Sg/b_o in the gas term, a typo against the document's own equations")
-    E = only(run(ctx, q), q).value
+    E = only(run(ctx, q), q, ctx, "C16-b").value
     if not isinstance(E, Num):
         raise AnalysisError("compressibility_combined_func does not return a numeric term")
     E = E.nf
@@ -79,7 +79,7 @@ def check(ctx):
     # ---- C16-d mobility
     ql = FP + "lambda_combined_func"
     fl = P.func(ql)
-    L = only(run(ctx, ql), ql).value
+    L = only(run(ctx, ql), ql, ctx, "C16-d").value
     ctx.identity(
         "C16-d", ql + ":return", fl.where(),
         "total mobility == rho_o(Rv krg/(mu_g Bg) + kro/(mu_o Bo)) + rho_g(Rs kro/(mu_o Bo) + krg/(mu_g Bg)) + rho_w krw/(mu_w Bw)",
@@ -89,7 +89,7 @@ def check(ctx):
     # ---- C16-e alpha = lambda / c, arguments bound by name
     qa = FP + "alpha_multiphase"
     fa = P.func(qa)
-    A = only(run(ctx, qa, opaque={q, ql}), qa).value
+    A = only(run(ctx, qa, opaque={q, ql}), qa, ctx, "C16-e").value
     lam = nf.fn(ql, *[nf.sym(n) for n in ("pressure", "So", "pvt", "kr")])
     cmp_ = nf.fn(q, *[nf.sym(n) for n in ("pressure", "So", "phi", "Sw", "pvt")])
     ctx.identity(
